@@ -9,6 +9,7 @@ fragment raises `Unknown`, which callers turn into ANALYSIS-ERROR.
 from __future__ import annotations
 
 import ast
+import copy
 from typing import Any, Callable
 
 from sa.index import AnalysisError
@@ -79,19 +80,44 @@ class ClassRef:
         return f"<class {self.qualname}>"
 
 
+def _isinstance(v, t):
+    "isinstance on the abstract run's values against builtin types (a tuple of them); anything else is undecided"
+    ts = t if isinstance(t, tuple) else (t,)
+    if not all(isinstance(x, type) and x.__module__ == "builtins" for x in ts):
+        raise Unknown("isinstance against a type the abstract run does not model")
+    if isinstance(v, Obj) or type(v).__name__ == "Arr":
+        return False if all(x in (list, tuple, dict, set, frozenset, str, int, float, bool, bytes, type(None)) for x in ts) else (_ for _ in ()).throw(Unknown("isinstance of an abstract object"))
+    return isinstance(v, ts)
+
+
 _SAFE_BUILTINS: dict[str, Callable] = {
+    "isinstance": _isinstance, "bytes": bytes, "type": type, "callable": callable, "divmod": divmod, "round": round, "ord": ord, "chr": chr, "iter": iter, "next": next,
     "len": len, "range": range, "str": str, "int": int, "bool": bool, "tuple": tuple, "list": list,
     "set": set, "frozenset": frozenset, "sorted": sorted, "max": max, "min": min, "abs": abs, "all": all,
     "any": any, "sum": sum, "enumerate": enumerate, "zip": zip, "reversed": reversed, "dict": dict, "map": map, "filter": filter,
     "repr": repr, "float": float, "slice": slice,
 }
+import functools as _functools
+import operator as _operator
+
+# standard-library functions that are pure, or whose only effect is on their (abstract, list-backed) arguments - `operator.iconcat(a, b)` extends
+# the list `a` in place, which is exactly what the abstract run has to see.  bare names are what `from functools import reduce` etc. bind
+_SAFE_STDLIB = {_functools.reduce, _operator.add, _operator.concat, _operator.iconcat, _operator.iadd, _operator.mul, _operator.sub, _operator.eq, _operator.ne,
+                _operator.lt, _operator.le, _operator.gt, _operator.ge, _operator.not_, _operator.and_, _operator.or_, _operator.getitem, _operator.contains, _operator.neg}
+_WELL_KNOWN = {
+    "operator": {"__namespace__": True, **{f.__name__: f for f in _SAFE_STDLIB if f is not _functools.reduce}},
+    "functools": {"__namespace__": True, "reduce": _functools.reduce},
+    "reduce": _functools.reduce,
+}
 _SAFE_METHODS = {
     str: {"upper", "lower", "startswith", "endswith", "strip", "lstrip", "rstrip", "split", "join", "replace",
           "removeprefix", "removesuffix", "format", "isdigit", "index", "count", "zfill"},
     tuple: {"index", "count"},
-    list: {"index", "count", "copy"},
-    dict: {"get", "keys", "values", "items", "copy"},
-    set: {"union", "intersection", "difference", "issubset", "copy"},
+    # mutating methods act on the abstract run's own containers (real python lists / dicts / sets: aliases see the change, as they would at run time)
+    list: {"index", "count", "copy", "append", "extend", "insert", "pop", "remove", "reverse", "clear"},
+    dict: {"get", "keys", "values", "items", "copy", "pop", "setdefault", "update", "popitem", "clear"},
+    set: {"union", "intersection", "difference", "issubset", "issuperset", "symmetric_difference", "isdisjoint", "copy", "add", "discard", "remove", "update", "clear",
+          "difference_update", "intersection_update"},
     frozenset: {"union", "intersection", "difference", "issubset"},
 }
 
@@ -122,8 +148,21 @@ class Evaluator:
             return _SAFE_BUILTINS[n.id]
         if n.id in ("True", "False", "None"):
             return {"True": True, "False": False, "None": None}[n.id]
+        if n.id == "typing":
+            # type expressions of the analysed source are built with the real (pure) typing constructors, so that
+            # `typing.get_args(dict[typing.Literal['a', 'b'], bool | None])` folds to what the interpreter would compute
+            import typing as _t
+
+            return {"__namespace__": True, "Literal": _t.Literal, "get_args": _t.get_args, "get_origin": _t.get_origin, "Union": _t.Union,
+                    "Optional": _t.Optional, "Any": _t.Any}
         if "__name__" in self.hooks:
-            return self.hooks["__name__"](n.id, env)
+            try:
+                return self.hooks["__name__"](n.id, env)
+            except Unknown:
+                if n.id not in _WELL_KNOWN:
+                    raise
+        if n.id in _WELL_KNOWN:
+            return _WELL_KNOWN[n.id]
         raise Unknown(f"free name `{n.id}`")
 
     def _Attribute(self, n, env):
@@ -136,7 +175,8 @@ class Evaluator:
             raise Unknown(f"abstract object {v!r} has no attribute {n.attr}")
         if isinstance(v, ClassRef) and "__classattr__" in self.hooks:
             return self.hooks["__classattr__"](v, n.attr)
-        if type(v).__name__ == "Arr" and n.attr in ("shape", "ndim", "tolist", "copy", "astype", "sum", "cumsum", "max", "min", "all", "any"):
+        if type(v).__name__ == "Arr" and n.attr in ("shape", "ndim", "size", "T", "tolist", "copy", "astype", "sum", "cumsum", "max", "min", "all", "any", "argmax", "argmin",
+                                                    "flatten", "ravel", "reshape", "item"):
             return getattr(v, n.attr)
         for t, names in _SAFE_METHODS.items():
             if isinstance(v, t) and n.attr in names:
@@ -144,6 +184,16 @@ class Evaluator:
         if isinstance(v, dict) and n.attr in v and v.get("__namespace__"):
             return v[n.attr]
         raise Unknown(f"attribute .{n.attr} of {type(v).__name__}")
+
+    @staticmethod
+    def truth(v) -> bool:
+        "truth value as the evaluated code would see it (numpy semantics for abstract arrays)"
+        if type(v).__name__ == "Arr":
+            try:
+                return v.truth()
+            except ValueError as e:
+                raise EvalRaised("ValueError", str(e))
+        return bool(v)
 
     # -- operators
     def _BinOp(self, n, env):
@@ -156,6 +206,10 @@ class Evaluator:
             raise Unknown(f"operator {type(n.op).__name__}")
         try:
             return f(l, r)
+        except ValueError as e:
+            if "broadcast" in str(e) and (type(l).__name__ == "Arr" or type(r).__name__ == "Arr"):
+                raise EvalRaised("ValueError", str(e))
+            raise Unknown(f"{ast.unparse(n)[:60]}: {e}")
         except Exception as e:
             raise Unknown(f"{ast.unparse(n)[:60]}: {e}")
 
@@ -165,9 +219,7 @@ class Evaluator:
             if isinstance(n.op, ast.Invert):
                 return ~v
             if isinstance(n.op, ast.Not):
-                if len(v.shape) and v.shape != (1,) * len(v.shape):
-                    raise EvalRaised("ValueError", "truth value of an array with more than one element is ambiguous")
-                return not v.all()
+                return not self.truth(v)
         if isinstance(n.op, ast.Invert):
             return ~v
         if isinstance(n.op, ast.Not):
@@ -183,13 +235,13 @@ class Evaluator:
             v = True
             for x in n.values:
                 v = self.ev(x, env)
-                if not v:
+                if not self.truth(v):
                     return v
             return v
         v = False
         for x in n.values:
             v = self.ev(x, env)
-            if v:
+            if self.truth(v):
                 return v
         return v
 
@@ -224,7 +276,7 @@ class Evaluator:
         return True
 
     def _IfExp(self, n, env):
-        return self.ev(n.body, env) if self.ev(n.test, env) else self.ev(n.orelse, env)
+        return self.ev(n.body, env) if self.truth(self.ev(n.test, env)) else self.ev(n.orelse, env)
 
     # -- containers
     def _elts(self, elts, env):
@@ -293,7 +345,7 @@ class Evaluator:
         for item in self.ev(g.iter, env):
             e2 = dict(env)
             self.bind(g.target, item, e2)
-            if all(self.ev(c, e2) for c in g.ifs):
+            if all(self.truth(self.ev(c, e2)) for c in g.ifs):
                 yield from self._comp(gens[1:], e2, leaf)
 
     def bind(self, target, value, env):
@@ -379,8 +431,10 @@ class Evaluator:
             if isinstance(f.node, ast.Lambda):
                 return self.ev(f.node.body, env)
             return self.run_body(f.node.body, env)
+        import typing as _t
+
         if callable(f) and (f in _SAFE_BUILTINS.values() or getattr(f, "__self__", None) is not None
-                            or getattr(f, "_sa_safe", False)):
+                            or getattr(f, "_sa_safe", False) or f in (_t.get_args, _t.get_origin) or f in _SAFE_STDLIB):
             # closures handed to builtins (sorted(key=...), map, filter, max(key=...)) become python callables
             def wrap(v):
                 if isinstance(v, Closure):
@@ -392,7 +446,11 @@ class Evaluator:
                 return f(*args, **kwargs)
             except Unknown:
                 raise
+            except (Unknown, EvalRaised):
+                raise
             except Exception as e:
+                if f is _functools.reduce and "empty iterable with no initial value" in str(e):
+                    raise EvalRaised("TypeError", str(e))  # what the evaluated code does on an empty collection
                 raise Unknown(f"call failed: {e}")
         raise Unknown(f"call of {f!r} outside the fragment")
 
@@ -432,13 +490,20 @@ class Evaluator:
             if isinstance(st, ast.Return):
                 raise Evaluator._Return(self.ev(st.value, env) if st.value is not None else None)
             if isinstance(st, ast.If):
-                self._exec(st.body if self.ev(st.test, env) else st.orelse, env)
+                self._exec(st.body if self.truth(self.ev(st.test, env)) else st.orelse, env)
                 continue
             if isinstance(st, ast.Assign) and len(st.targets) == 1:
                 self.bind(st.targets[0], self.ev(st.value, env), env)
                 continue
             if isinstance(st, ast.AnnAssign) and st.value is not None:
                 self.bind(st.target, self.ev(st.value, env), env)
+                continue
+            if isinstance(st, ast.AugAssign) and isinstance(st.target, (ast.Subscript, ast.Attribute)):
+                # `a[k] op= v` / `o.f op= v`: read, combine, store back through the same target (the index expression is pure in the fragment)
+                load = copy.deepcopy(st.target)
+                load.ctx = ast.Load()
+                cur = self.ev(ast.BinOp(left=load, op=st.op, right=st.value), env)
+                self.bind(st.target, cur, env)
                 continue
             if isinstance(st, ast.AugAssign) and isinstance(st.target, ast.Name):
                 if isinstance(env.get(st.target.id), list) and isinstance(st.op, ast.Add):
@@ -498,7 +563,7 @@ class Evaluator:
                 continue
             if isinstance(st, ast.While) and not st.orelse:
                 n_iter = 0
-                while self.ev(st.test, env):
+                while self.truth(self.ev(st.test, env)):
                     n_iter += 1
                     if n_iter > 20_000:
                         raise Unknown("loop budget exceeded")
@@ -521,7 +586,7 @@ class Evaluator:
                 raise Evaluator._Break()
             if isinstance(st, ast.Assert):
                 try:
-                    holds = bool(self.ev(st.test, env))
+                    holds = self.truth(self.ev(st.test, env))
                 except Unknown:
                     continue  # an assertion about values the fragment does not track
                 if not holds:
